@@ -423,7 +423,59 @@ def r10(F, rep):
         raise AnalysisBroken("C20-R10: no `&&` chain with a subscript and its bound test found (vector1d::from_simple_string expected)")
 
 
+def r11(F, rep, rid="C20-R11"):
+    rep.rule(rid, "index 0 is an index: where an integer local that starts as a negative sentinel (\"not found\") is filled by a "
+                  "search and then used as a subscript under a comparison with a constant, the comparison holds for 0 (>= 0, "
+                  "> -1, != -1) -- `> 0` reports \"none\" whenever the answer is the first element")
+    n = 0
+    for f in sorted(F.funcs.values(), key=lambda g: g.q):
+        if "/src/" not in f.file or f.body is None or not f.cfg.ok:
+            continue
+        sent = {}
+        for d in f.walk():
+            if d["k"] == "VarDecl" and d.get("st") == "local" and X.kids(d):
+                v = C._lit(X.kids(d)[0])
+                if v is not None and v < 0 and X.is_int_type(f.typestr(d.get("t"))):
+                    sent[d["d"]] = d
+        if not sent:
+            continue
+        seen = set()
+        for x in f.walk():
+            sub = None
+            if x["k"] == "ArraySubscriptExpr" and len(X.kids(x)) == 2:
+                sub = X.kids(x)[1]
+            elif x["k"] == "CXXOperatorCallExpr" and x.get("op") == "[]" and len(X.call_args(x)) == 2:
+                sub = X.call_args(x)[1]
+            if sub is None:
+                continue
+            ss = X.strip(sub)
+            if ss["k"] != "DeclRefExpr" or ss.get("d") not in sent or ss["d"] in seen:
+                continue
+            facts, gs = C.guard_facts(f, x)
+            kv = X.key(ss, f)
+            rel = [t for t in facts if t[0] == "cmp" and t[2] == kv and C_num(t[3]) is not None]
+            if not rel:
+                continue
+            seen.add(ss["d"])
+            n += 1
+            ok = all({"<": 0 < C_num(t[3]), "<=": 0 <= C_num(t[3]), ">": 0 > C_num(t[3]), ">=": 0 >= C_num(t[3]),
+                      "==": 0 == C_num(t[3]), "!=": 0 != C_num(t[3])}.get(t[1], True) for t in rel)
+            rep.add(rid, "%s|%s" % (f.q, ss.get("n")), f.loc(x), "%s: `%s` (starts at %s) is used as a subscript under %s" % (
+                f.q, ss.get("n"), C._lit(X.kids(sent[ss["d"]])[0]), ["%s %s %s" % (ss.get("n"), t[1], t[3]) for t in rel]), ok,
+                detail="a result found in the first slot is treated as not found: the value reported for it is the sentinel", func=f.q)
+    if n < 1:
+        raise AnalysisBroken("%s: no sentinel-initialised index used as a subscript under a comparison found" % rid)
+
+
+def C_num(s):
+    try:
+        return float(s)
+    except (TypeError, ValueError):
+        return None
+
+
 def run(F, rep, tier):
+    r11(F, rep)
     r1(F, rep)
     r2(F, rep)
     r3(F, rep)
